@@ -87,8 +87,9 @@ FixStep ==
      /\ Chk("C02_CommentsKept", \A k \in 1..nw : \/ CommentsSame(ws[k].pre, ws[k].post)
                                                  \/ (e.mayDrop /\ CommentsOnlyDropped(ws[k].pre, ws[k].post)))
      /\ Chk("C02_CommentEndsLine", ~CommentEndsLine(toks) \/ CommentEndsLine(t2))     \* reported where it is introduced
-     \* ---- C08: the list stays lexically canonical (reported at the step that breaks it)
-     /\ Chk("C08_Canonical", ~Canonical(toks) \/ Canonical(t2))
+     \* ---- informational (never a finding by itself): the step that leaves the list lexically non-canonical; used to
+     \*      attribute a divergence between the final model and its re-read text (C08) to a rule
+     /\ Chk("I_Canonical", ~Canonical(toks) \/ Canonical(t2))
      \* ---- C03: effect within the documented class
      /\ Chk("C03_NoneNeverFixes", e.cls # "NONE" /\ e.fixable /\ e.sevErr)
      /\ Chk("C03_ClassKnown", e.cls \in {"STRUCT", "WS", "VERT", "CASE", "NONE"})
@@ -136,7 +137,7 @@ DropTrailingWs(s) ==
 NormStep ==
   /\ E.e = "Norm"
   /\ Chk("C03_NormEffect", NoBlank(E.toks) = DropTrailingWs(NoBlank(toks)))
-  /\ Chk("C08_Canonical", ~Canonical(toks) \/ Canonical(E.toks))
+  /\ Chk("I_Canonical", ~Canonical(toks) \/ Canonical(E.toks))
   /\ toks' = E.toks /\ stale' = FALSE
   /\ UNCHANGED <<fixPhase, skip, lastPS>>
 
